@@ -22,6 +22,7 @@ import Driver.UisT
 import Driver.RuisT
 import Driver.ContainerT
 import Driver.CrashT
+import Driver.BumpT
 import Driver.EventT
 open Driver
 
@@ -66,6 +67,7 @@ def components : List (String × Comp) := [
   ("uis", UisT.comp),
   ("ruis", RuisT.comp),
   ("container", ContainerT.comp),
+  ("bump", BumpT.comp),
   ("ruisx", CrashT.ruisComp),
   ("containerx", CrashT.contComp),
   ("event", EventT.comp)
